@@ -128,9 +128,11 @@ type c13Case struct {
 	Ops []c13Op `json:"ops"`
 }
 
-// registers whose writes must not disturb the line/mode sequence (LY and DMA
-// writes are not part of the property's domain and are never generated)
-var c13Regs = []uint16{0xff41, 0xff45, 0xff42, 0xff43, 0xff4a, 0xff4b, 0xff47, 0xff48, 0xff49}
+// registers whose writes must not disturb the line/mode sequence. LY (FF44)
+// is read-only on a DMG: a store to it must leave the sequence alone too; what
+// a read returns before the next machine cycle has elapsed is not asserted (a
+// guest cannot read it that soon). DMA writes are never generated.
+var c13Regs = []uint16{0xff41, 0xff45, 0xff42, 0xff43, 0xff4a, 0xff4b, 0xff47, 0xff48, 0xff49, 0xff44, 0xff44}
 
 var c13ROM = machine.MakeROM(0, 0, 0)
 
@@ -220,9 +222,13 @@ func c13Run(cas c13Case) (sig string, err error) {
 	m.Mp.Write(0xff40, 0x11)
 	cyc := 0
 	last := "initial switch-off"
+	lyStored := false // a store to LY was made and no machine cycle has elapsed since: LY reads are not judged
 	check := func(ctx string) (string, error) {
 		ly, mode := ref.Obs()
 		gly, gmode := m.Mp.Read(0xff44), m.Mp.Read(0xff41)&3
+		if lyStored {
+			gly = ly
+		}
 		if gly == ly && gmode == mode {
 			return "", nil
 		}
@@ -259,6 +265,7 @@ func c13Run(cas c13Case) (sig string, err error) {
 				m.HW()
 				ref.Tick()
 				cyc++
+				lyStored = false
 				if s, e := check("run"); e != nil {
 					return s, e
 				}
@@ -272,6 +279,10 @@ func c13Run(cas c13Case) (sig string, err error) {
 			}
 		case "reg":
 			m.Mp.Write(op.A, op.V)
+			if op.A == 0xff44 {
+				last = fmt.Sprintf("after op %d: a store of %02x to LY", i, op.V)
+				lyStored = true
+			}
 			if s, e := check("reg"); e != nil {
 				return s, fmt.Errorf("after op %d (%04x=%02x): %v", i, op.A, op.V, e)
 			}
